@@ -8,7 +8,9 @@
 (*   "found":  [[t, ns, r, ew]] from find_twprge(text, preprocess=True),   *)
 (*   "tracts": the same from the tracts' Twp/Rge,                          *)
 (*   "leftover": a Twp/Rge in another than the canonical spelling is left, *)
-(*   "again":  preprocessing pp_desc once more gives pp_desc, "exc"}       *)
+(*   "again":  preprocessing pp_desc once more gives pp_desc,              *)
+(*   "as_written_out": the tracts (Twp/Rge/Sec and description) equal the  *)
+(*             tracts of the same text with the defaults written out,"exc"}*)
 (* Verdict evaluates the property (C08); Drift compares the observed atoms *)
 (* with the model's prediction Preprocessed(Doc(occ), dflt).               *)
 (***************************************************************************)
@@ -35,6 +37,7 @@ Clause(r) ==
   ELSE IF r.leftover THEN "preprocessed_text_not_in_canonical_spelling"
   ELSE IF r.found # WantT THEN "find_twprge_differs"
   ELSE IF r.tracts # WantT THEN "tract_twprge_differs"
+  ELSE IF ~r.as_written_out THEN "not_the_tracts_of_the_written_out_text"
   ELSE "ok"
 Verdict == pass = 8 => (Clause(Rec) = "ok" \/ PrintT(<<"FAIL", Rec.id, Clause(Rec)>>))
 Drift == pass = 8 /\ Rec.exc = "none" =>
